@@ -155,6 +155,7 @@ class Profile:
         self.max_field_deg = 20.0
         self.max_n = 2.2
         self.zero_thickness = True
+        self.positive_power = False
         self.__dict__.update(kw)
 
 
@@ -179,7 +180,7 @@ PROFILES = {
     # well behaved imaging lenses (positive power, real image) for wavefront/PSF/analysis checks
     'imaging': Profile(max_surfs=6, shapes=['standard', 'standard', 'even_asphere'], allow_mirror=False,
                        keep_edges=True, rho_min=3.0, steep_prob=0.0, ap_types=['EPD', 'imageFNO'],
-                       max_field_deg=8.0, allow_vignetting=False, max_n=2.0, zero_thickness=False),
+                       max_field_deg=8.0, allow_vignetting=False, max_n=2.0, zero_thickness=False, positive_power=True),
 }
 
 
@@ -381,8 +382,35 @@ def lens_spec(draw, profile='paraxial', min_surfs=1, max_surfs=None, force_infin
     spec = dict(obj=dict(t=(t_obj if finite else INF), n=n0), surfs=surfs, img=img,
                 ap=dict(type='EPD', value=2 * semi), ftype='object_height' if use_height else 'angle',
                 fields=fields, wls=wls, prim=prim, tele=False)
+    if getattr(P, 'positive_power', False):
+        spec = make_imaging(spec, draw(f(0.9, 1.05)) if draw(st.integers(0, 3)) == 0 else 1.0)
     spec = fit_beam(spec, P.rho_min)
     spec = set_aperture_kind(spec, ap_type)
+    return spec
+
+
+def make_imaging(spec, focus_factor=1.0):
+    """Deterministic repair towards a lens that forms a real image near its image surface: if the power is negative all
+    curvatures (and aspheric terms) change sign; the last gap is set to focus_factor x the paraxial back focal distance
+    when that is positive."""
+    try:
+        ps = parax_sys(spec)
+        if ps.power() < 0:
+            for s in spec['surfs']:
+                if s['R'] != INF:
+                    s['R'] = -s['R']
+                if s['type'] == 'even_asphere' and s['coef']:
+                    s['coef'] = [-c for c in s['coef']]
+            ps = parax_sys(spec)
+        ya, ua = ps.marginal(spec['ap']['type'], spec['ap']['value'])
+        K = len(spec['surfs'])
+        u = ua[K - 1]
+        if math.isfinite(u) and abs(u) > 1e-9:
+            bfd = -ya[K - 1] / u
+            if math.isfinite(bfd) and 1e-3 < bfd < 1e4:
+                spec['surfs'][-1]['t'] = float(bfd * focus_factor)
+    except (ZeroDivisionError, OverflowError, ValueError, IndexError):
+        pass
     return spec
 
 
